@@ -186,6 +186,7 @@ func cmdCheck(args []string) int {
 	timeoutS := 10
 	if *tier == "thorough" {
 		CrossCheck = true
+		CallCovers = true
 		timeoutS = 60
 	}
 	start := time.Now()
@@ -222,6 +223,7 @@ func cmdCheck(args []string) int {
 	var sumT, maxT float64
 	slow := []string{}
 	unreachableNew := []string{}
+	coversUndecided := []string{}
 	covers, coversSat := 0, 0
 	stubSet := map[string]bool{}
 	abstractedAll := map[string]bool{}
@@ -249,8 +251,10 @@ func cmdCheck(args []string) int {
 				covers++
 				if o.Status == "sat" {
 					coversSat++
+				} else if o.Status != "unsat" {
+					coversUndecided = append(coversUndecided, o.Name)
 				}
-				if o.Status == "unsat" && strings.Contains(o.Name, "#cover:return-reachable:") && !lock[o.Name] {
+				if o.Status == "unsat" && (strings.Contains(o.Name, "#cover:return-reachable:") || strings.Contains(o.Name, "-iteration-completes") || strings.Contains(o.Name, "#cover:call-returns:")) && !lock[o.Name] {
 					// a return added since the lock was written and excluded by the contract (defensive code): noted, not alarmed
 					unreachableNew = append(unreachableNew, o.Name)
 					continue
@@ -436,20 +440,22 @@ func cmdCheck(args []string) int {
 	ev := evidence{PropertyID: *id, Tier: *tier, Seed: seed, Level: "proof", Assumptions: assumptions, Violations: violations,
 		WallS: round3(time.Since(start).Seconds())}
 	ev.Coverage = map[string]interface{}{
-		"obligations":            len(all),
-		"discharged":             discharged,
-		"checker_cmd":            fmt.Sprintf("/verif/bin/govc check -p %s -tier %s  (per obligation: z3-new | z3 | cvc5, timeout %ds; quick: raced, first definite answer; thorough: all three run to their own answer and must not disagree)", *id, *tier, timeoutS),
-		"trusted_base":           trusted,
-		"functions":              funcsInfo,
-		"by_backend":             byBackend,
-		"solver_time_s":          map[string]float64{"sum": round3(sumT), "max": round3(maxT), "load": round3(pr.loadS), "vcgen": round3(pr.genS), "solve_wall": round3(pr.solveS)},
-		"samples":                samples,
-		"slow_obligations":       slow,
-		"covers":                 map[string]int{"run": covers, "sat": coversSat},
-		"out_of_subset":          outOfSubset,
-		"bounded_standins":       bounded,
-		"known_findings_matched": knownHit,
-		"arithmetic":             "mathematical integers + overflow obligations; floats uninterpreted unless stated",
+		"obligations":      len(all),
+		"discharged":       discharged,
+		"checker_cmd":      fmt.Sprintf("/verif/bin/govc check -p %s -tier %s  (per obligation: z3-new | z3 | cvc5, timeout %ds; quick: raced, first definite answer; thorough: all three run to their own answer and must not disagree)", *id, *tier, timeoutS),
+		"trusted_base":     trusted,
+		"functions":        funcsInfo,
+		"by_backend":       byBackend,
+		"solver_time_s":    map[string]float64{"sum": round3(sumT), "max": round3(maxT), "load": round3(pr.loadS), "vcgen": round3(pr.genS), "solve_wall": round3(pr.solveS)},
+		"samples":          samples,
+		"slow_obligations": slow,
+		"new_returns_unreachable_under_the_contract": unreachableNew,
+		"covers_undecided":                           coversUndecided,
+		"covers":                                     map[string]int{"run": covers, "sat": coversSat},
+		"out_of_subset":                              outOfSubset,
+		"bounded_standins":                           bounded,
+		"known_findings_matched":                     knownHit,
+		"arithmetic":                                 "mathematical integers + overflow obligations; floats uninterpreted unless stated",
 	}
 	if mutantInfo != nil {
 		ev.Coverage["must_fail_corpus"] = mutantInfo
@@ -480,6 +486,7 @@ func round3(f float64) float64 { return float64(int64(f*1000+0.5)) / 1000 }
 
 // cmdLock regenerates obligations.lock from the current tree (only obligations that discharge).
 func cmdLock(args []string) int {
+	CallCovers = true
 	fs := flag.NewFlagSet("lock", flag.ExitOnError)
 	repo := fs.String("repo", repoDir, "")
 	only := fs.String("p", "", "only these properties (comma separated)")
@@ -523,7 +530,7 @@ func cmdLock(args []string) int {
 			for _, o := range r.VC.obls {
 				if o.Cover {
 					// a return statement that was reachable when the lock was written must stay reachable
-					if strings.Contains(o.Name, "#cover:return-reachable:") && o.Status == "sat" {
+					if (strings.Contains(o.Name, "#cover:return-reachable:") || strings.Contains(o.Name, "-iteration-completes") || strings.Contains(o.Name, "#cover:call-returns:")) && o.Status == "sat" {
 						lines = append(lines, id+"\t"+o.Name)
 					}
 					continue
